@@ -14,6 +14,7 @@ def directRecover : Code → Bool
   | .defer _ _ k => directRecover k
   | .deferVar _ _ k => directRecover k
   | .deferBin _ _ k => directRecover k
+  | .deferBinSpread _ _ k => directRecover k
   | .deferDel _ k => directRecover k
   | .deferPanic _ k => directRecover k
   | .probe _ k => directRecover k
@@ -39,6 +40,7 @@ def Dom : Code → Bool
   | .defer f _ k => Dom f && Dom k
   | .deferVar f _ k => Dom f && !directRecover f && Dom k
   | .deferBin _ _ k => Dom k
+  | .deferBinSpread _ _ k => Dom k
   | .deferDel _ k => Dom k
   | .deferPanic _ k => Dom k
   | .probe _ k => Dom k
@@ -59,6 +61,7 @@ def noHeld : Code → Bool
   | .defer f _ k => noHeld f && noHeld k
   | .deferVar _ _ _ => false
   | .deferBin _ _ k => noHeld k
+  | .deferBinSpread _ _ k => noHeld k
   | .deferDel _ k => noHeld k
   | .deferPanic _ k => noHeld k
   | .probe _ k => noHeld k
@@ -85,6 +88,7 @@ theorem dom_of_noHeld : ∀ (c : Code), noHeld c = true → Dom c = true := by
     simp [Dom, ihf h.1, ih h.2]
   | deferVar f x k _ _ => intro h; simp [noHeld] at h
   | deferBin s x k ih => intro h; exact ih (by simpa [noHeld] using h)
+  | deferBinSpread s ns k ih => intro h; exact ih (by simpa [noHeld] using h)
   | deferDel t k ih => intro h; exact ih (by simpa [noHeld] using h)
   | deferPanic v k ih => intro h; exact ih (by simpa [noHeld] using h)
   | probe t k ih => intro h; exact ih (by simpa [noHeld] using h)
@@ -134,6 +138,7 @@ theorem execBody_none (cs : CallFn) :
   | defer f x k _ ih => intros; simp only [execBody]; apply ih
   | deferVar f x k _ ih => intros; simp only [execBody]; apply ih
   | deferBin s x k ih => intros; simp only [execBody]; apply ih
+  | deferBinSpread s ns k ih => intros; simp only [execBody]; apply ih
   | deferDel t k ih => intros; simp only [execBody]; apply ih
   | deferPanic v k ih => intros; simp only [execBody]; apply ih
   | probe t k ih => intros; simp only [execBody]; apply ih
@@ -188,6 +193,7 @@ theorem execBody_ctxfree (cs : CallFn) :
   | defer f x k _ ih => intro a ctx outer act w h; simp only [execBody]; exact ih _ _ _ _ _ (by simpa [directRecover] using h)
   | deferVar f x k _ ih => intro a ctx outer act w h; simp only [execBody]; exact ih _ _ _ _ _ (by simpa [directRecover] using h)
   | deferBin s x k ih => intro a ctx outer act w h; simp only [execBody]; exact ih _ _ _ _ _ (by simpa [directRecover] using h)
+  | deferBinSpread s ns k ih => intro a ctx outer act w h; simp only [execBody]; exact ih _ _ _ _ _ (by simpa [directRecover] using h)
   | deferDel t k ih => intro a ctx outer act w h; simp only [execBody]; exact ih _ _ _ _ _ (by simpa [directRecover] using h)
   | deferPanic v k ih => intro a ctx outer act w h; simp only [execBody]; exact ih _ _ _ _ _ (by simpa [directRecover] using h)
   | probe t k ih => intro a ctx outer act w h; simp only [execBody]; exact ih _ _ _ _ _ (by simpa [directRecover] using h)
@@ -221,6 +227,7 @@ def depth : Code → Nat
   | .defer f _ k => max (depth f + 1) (depth k)
   | .deferVar f _ k => max (depth f + 1) (depth k)
   | .deferBin _ _ k => depth k
+  | .deferBinSpread _ _ k => depth k
   | .deferDel _ k => depth k
   | .deferPanic _ k => depth k
   | .probe _ k => depth k
@@ -275,6 +282,15 @@ theorem execBody_enough (n : Nat) (cs : CallFn) (hcs : Enough n cs) :
     · simp [Entry.shallow]
     · exact h e he
   | deferDel t k ih =>
+    intro a ctx outer act w hd h
+    simp only [execBody]
+    refine ih _ _ _ _ _ (by simpa [depth] using hd) ?_
+    intro e he
+    simp only [push, List.mem_cons] at he
+    rcases he with rfl | he
+    · simp [Entry.shallow]
+    · exact h e he
+  | deferBinSpread s ns k ih =>
     intro a ctx outer act w hd h
     simp only [execBody]
     refine ih _ _ _ _ _ (by simpa [depth] using hd) ?_
@@ -338,6 +354,7 @@ theorem runDefers_enough (n : Nat) (cs : CallFn) (hcs : Enough n cs) :
     cases callee with
     | bin s => simp only [runDefers]; exact ih _ _ _ hes
     | del t => simp only [runDefers]; exact ih _ _ _ hes
+    | bins s ns sp => simp only [runDefers]; exact ih _ _ _ hes
     | pan v => simp only [runDefers]; exact ih _ _ _ hes
     | src c =>
       simp only [runDefers]
